@@ -34,7 +34,10 @@ import (
 	. "verifh/hc"
 )
 
-const watchdogSecs = 8
+const watchdogSecs = 4
+
+// after this many hanging histories the run stops (every hang costs watchdogSecs of real time)
+const maxHangs = 12
 
 func main() {
 	if len(os.Args) > 1 && os.Args[1] == "-child" {
@@ -367,8 +370,9 @@ func runSeq(h *hist, steps []step) {
 	slotSet := map[int]bool{}
 	proxyIDs := map[*capnp.Client]int{}
 	type pendingHandle struct {
-		idx int
-		c   *capnp.Client
+		idx  int
+		slot int
+		c    *capnp.Client
 	}
 	var handles []pendingHandle // Client() results of the current phase, named after quiescence
 	future := func(path []int) *capnp.Future {
@@ -442,10 +446,10 @@ func runSeq(h *hist, steps []step) {
 		case 'C':
 			go func() {
 				c := future(st.path).Client()
+				// the slot is written after quiescence, in operation order (several Client() calls
+				// can be released by the same resolution)
 				slotMu.Lock()
-				slots[st.slot] = c
-				slotSet[st.slot] = true
-				handles = append(handles, pendingHandle{i, c})
+				handles = append(handles, pendingHandle{i, st.slot, c})
 				slotMu.Unlock()
 			}()
 		case 'K', 'Q':
@@ -511,6 +515,10 @@ func runSeq(h *hist, steps []step) {
 			slotMu.Unlock()
 			sort.Slice(hs, func(a, b int) bool { return hs[a].idx < hs[b].idx })
 			for _, ph := range hs {
+				slotMu.Lock()
+				slots[ph.slot] = ph.c
+				slotSet[ph.slot] = true
+				slotMu.Unlock()
 				name := ""
 				switch {
 				case ph.c == nil:
@@ -661,7 +669,8 @@ func child() {
 // runChildren runs the histories through child processes; returns one observation per history.
 func runChildren(lines []string) []string {
 	res := make([]string, 0, len(lines))
-	for len(res) < len(lines) {
+	hangs := 0
+	for len(res) < len(lines) && hangs < maxHangs {
 		rest := lines[len(res):]
 		cmd := exec.Command(os.Args[0], "-child")
 		cmd.Stdin = strings.NewReader(strings.Join(rest, "\n") + "\n")
@@ -687,6 +696,9 @@ func runChildren(lines []string) []string {
 			}
 		}
 		cmd.Wait()
+		if got > 0 && strings.Contains(res[len(res)-1], "HANG") {
+			hangs++
+		}
 		if got == 0 {
 			// the child died without reporting anything for the first remaining history
 			res = append(res, "CRASH")
@@ -704,7 +716,71 @@ var pathSets = [][]string{
 	{"0", "1.256", "257"},
 }
 
+// genBusy: proxy clients with calls still inside the PipelineCaller when the resolution is
+// requested, then calls through the same and the other proxies while the resolution is pending.
+func genBusy(r *Rand) string {
+	set := pathSets[[]int{0, 1, 3}[r.Intn(3)]]
+	np := 1 + r.Intn(3)
+	var steps []string
+	for i := 0; i < np; i++ {
+		steps = append(steps, fmt.Sprintf("C:%s:%d", set[i], i))
+	}
+	var gated []int
+	for i := 0; i < np; i++ {
+		if r.Intn(3) != 0 {
+			gated = append(gated, len(steps))
+			steps = append(steps, fmt.Sprintf("%s:%d:1", []string{"K", "Q"}[r.Intn(2)], i))
+		}
+	}
+	if r.Intn(3) == 0 {
+		gated = append(gated, len(steps))
+		steps = append(steps, fmt.Sprintf("S:%s:1", set[r.Intn(len(set))]))
+	}
+	var cs []string
+	for i, p := range set {
+		if r.Intn(5) != 0 {
+			cs = append(cs, fmt.Sprintf("%s=%d", p, i+1))
+		}
+	}
+	caps := "-"
+	if len(cs) > 0 {
+		caps = strings.Join(cs, ",")
+	}
+	if r.Intn(4) == 0 {
+		steps = append(steps, "R:-")
+	} else {
+		steps = append(steps, "F:"+caps+":-")
+	}
+	// while the resolution is pending
+	for k := 0; k < 1+r.Intn(4); k++ {
+		switch r.Intn(5) {
+		case 0:
+			steps = append(steps, fmt.Sprintf("S:%s:0", set[r.Intn(len(set))]))
+		case 1:
+			steps = append(steps, fmt.Sprintf("C:%s:%d", set[r.Intn(len(set))], r.Intn(3)))
+		case 2:
+			steps = append(steps, "W")
+		default:
+			steps = append(steps, fmt.Sprintf("K:%d:0", r.Intn(np)))
+		}
+	}
+	// let the calls go in random order, interleaved with more calls
+	for len(gated) > 0 {
+		k := r.Intn(len(gated))
+		steps = append(steps, fmt.Sprintf("U:%d", gated[k]))
+		gated = append(gated[:k], gated[k+1:]...)
+		if r.Intn(2) == 0 {
+			steps = append(steps, fmt.Sprintf("K:%d:0", r.Intn(np)))
+		}
+	}
+	steps = append(steps, "W", "K:0:0", "L", "K:0:0", "L", "R:-")
+	return "seq " + strings.Join(steps, " ")
+}
+
 func genHistory(r *Rand, maxOps int) string {
+	if r.Intn(4) == 0 {
+		return genBusy(r)
+	}
 	set := pathSets[r.Pick(4, 3, 1, 2)]
 	extra := []string{"e", "5", "0.7", "1"}
 	pickPath := func() string {
@@ -808,15 +884,16 @@ func runC11(out *Out, r *Rand, tier string, replay []string) {
 	if replay != nil {
 		lines = replay
 	} else {
-		n, maxOps := 400, 10
+		n, maxOps := 1500, 10
 		if tier == "thorough" {
-			n, maxOps = 6000, 18
+			n, maxOps = 30000, 18
 		}
 		for i := 0; i < n; i++ {
 			lines = append(lines, genHistory(r, maxOps))
 		}
 	}
 	obs := runChildren(lines)
+	lines = lines[:len(obs)] // the run stops early after maxHangs hanging histories
 	hangs := 0
 	for i, l := range lines {
 		o := obs[i]
